@@ -525,6 +525,49 @@ func gen(seed uint64, tier string) {
 		84.03, 628.63, 115.31, 645.31, 118.75, 681.96, 109.94, 704.43, 84.39, 715.17, 60.20, 716.24, 42.37, 703.14, 34.64, 675.16,
 		46.31, 658.05, 69.50, 645.16, 85.68, 651.96, 98.78, 669.93, 92.84, 691.98, 68.07, 699.21, 72.58, 676.59)))
 
+	// ---- class `ladder`: graded near-ties.  One vertex B between A and C whose exact distance to the
+	// segment AC is tol·(1 ± 2^-k), k = 12 … 30 — in the projection branch (AC along a 3-4-5 direction, B off
+	// the line by 5(1 ± 2^-k)) and in the end-point branch (B = (3,4)(1 ± 2^-k) behind A) — under the eight
+	// axis symmetries and three dyadic scales (all coordinates dyadic, every product exact).  Above tol the
+	// vertex must be kept, below it may go; a comparison that loses precision (float32, an epsilon in the
+	// test, a squared comparison rounded differently) drops a vertex that is farther than tol by more than
+	// the Spec's slack (2·2^-k ≥ 1.8e-9 > 1e-9).
+	for _, k := range []int{12, 16, 20, 22, 24, 26, 28, 30} {
+		eps := math.Ldexp(1, -k)
+		for _, sg := range []float64{1, -1} {
+			e := sg * eps
+			shapes := [][]float64{
+				{0, 0, 5 - 4*e, 15 + 3*e, 24, 32},      // projection branch, distance 5(1+e)
+				{0, 0, 3 + 3*e, 4 + 4*e, -7, 1},        // end-point branch (behind A), distance 5(1+e)
+				{-7, 1, 3 + 3*e, 4 + 4*e, 0, 0, 2, -9}, // end-point branch at the far end, one more vertex behind
+			}
+			for si, sh := range shapes {
+				for sym := 0; sym < 8; sym++ {
+					for _, sc := range []float64{1, 0.125, 32} {
+						if (si+sym+k)%3 != 0 && sc != 1 {
+							continue // the scaled copies for a third of the combinations
+						}
+						c := make([]float64, len(sh))
+						for q := 0; q < len(sh); q += 2 {
+							x, y := sh[q], sh[q+1]
+							if sym&1 != 0 {
+								x = -x
+							}
+							if sym&2 != 0 {
+								y = -y
+							}
+							if sym&4 != 0 {
+								x, y = y, x
+							}
+							c[q], c[q+1] = x*sc, y*sc
+						}
+						emit("ladder", 5*sc, geom.LineString(P(c...)))
+					}
+				}
+			}
+		}
+	}
+
 	n := 5000
 	big := false
 	// smooth long runs: few but long cases (the exact model costs O(run^2) rational distance tests per run)
@@ -1207,6 +1250,7 @@ func sameBits(a, b []geom.Point) bool {
 //	members         every member simplified on its own (fresh copies)
 //	again           the identical call repeated after the operand was changed IN PLACE (x and y of
 //	                every vertex swapped: same addresses, same lengths); judged against the swapped input
+//
 // ---- concurrent callers (generic probe (g)): the four Simplify methods are pure functions of receiver
 // and tolerance.  For a line of class `conc-…` the reference answer is computed alone; then 8 goroutines
 // repeat the call on private deep copies while 8 others hammer the same API on unrelated large inputs
@@ -1383,7 +1427,7 @@ func worker() {
 			var cls string
 			perr := vproto.Safe(func() {
 				p := vproto.NewParser(l)
-				p.Next() // simp
+				p.Next()       // simp
 				cls = p.Next() // class
 				tol = p.F()
 				g = p.Geom()
